@@ -64,7 +64,7 @@ pub fn run(ctx: &Ctx) -> i32 {
     let reps = ctx.tier.pick(500u64, 1_000_000u64);
     run_workload(ctx, &mut acc, "vulnerability-subsets", 16 * reps, |k, rng, acc| {
         let mask = k % 16;
-        let m = gen_map(rng, "vulnerabilities", mask, if rng.chance(1, 10) { 30 } else { 4 });
+        let m = gen_map(rng, "vulnerabilities", mask, match rng.below(20) { 0 | 1 => 30, 2 => 120, _ => 4 });
         let order: Vec<usize> = (0..m.len()).collect();
         let text = report::render_category("vulnerabilities", &m, &order, 0);
         acc.cov(&format!("vuln-subset:{:04b}", mask));
@@ -87,7 +87,7 @@ pub fn run(ctx: &Ctx) -> i32 {
                 mask |= 1 << i;
             }
         }
-        let m = gen_map(rng, "optimizations", mask, if rng.chance(1, 10) { 30 } else { 4 });
+        let m = gen_map(rng, "optimizations", mask, match rng.below(20) { 0 | 1 => 30, 2 => 120, _ => 4 });
         let order: Vec<usize> = (0..m.len()).collect();
         let text = report::render_category("optimizations", &m, &order, 0);
         match report::parse_category(&text, "optimizations", &table) {
